@@ -12,7 +12,7 @@ MCNext ==
   \/ HandshakeStep("none") /\ NoF
   \/ (\E f \in {"ack", "reset", "connect"} : HandshakeStep(f)) /\ Fault
   \/ Step("none") /\ NoF
-  \/ (\E f \in {"send", "recv"} : Step(f)) /\ Fault
+  \/ (\E f \in {"send", "recv", "fput"} : Step(f)) /\ Fault
   \/ FollowerRestart /\ Fault
   \/ FollowerLoseLog /\ Fault
   \/ LeaderRestart /\ Fault
